@@ -99,6 +99,8 @@ def main(tier, seed, replay=None):
     for i, c in enumerate(cases):
         c["id"] = i
     results = run_harness(binp, "scenario", cases, workdir, timeout_ms=20000)
+    cases, results, nrel = with_release("scenario", cases, results, workdir, timeout_ms=20000, every=2)
+    run.coverage["release_profile_cases_differing_from_dev"] = nrel
     terms, idx = [], []
     hist_term, stats = {}, {"accepted": 0, "rejected": 0, "reset": 0, "ambiguous": 0}
     for c, r in zip(cases, results):
